@@ -36,11 +36,14 @@
 
 import re
 import sys
-from collections import Counter
 
 import numpy as np
 
-from phonopy.interface.vasp import check_forces, get_drift_forces
+from phonopy.interface.vasp import (
+    check_forces,
+    get_drift_forces,
+    sort_positions_by_symbols,
+)
 from phonopy.structure.atoms import PhonopyAtoms, atom_data, symbol_map
 
 _re_float = r"[-+]?\d+\.*\d*(?:[Ee][-+]\d+)?"
@@ -250,8 +253,15 @@ def get_abacus_structure(atoms, pps, orbitals=None, abfs=None):
     empty_line = ""
     line = []
     line.append("ATOMIC_SPECIES")
-    elements = list(Counter(atoms.symbols).keys())
-    numbers = list(Counter(atoms.symbols).values())
+    # Atoms are grouped by species in STRU. Positions (and magnetic moments)
+    # have to follow the same (stable) reordering as the species counts.
+    numbers, elements, scaled_positions, sort_list = sort_positions_by_symbols(
+        atoms.symbols, atoms.scaled_positions
+    )
+    if atoms.magnetic_moments is None:
+        magnetic_moments = None
+    else:
+        magnetic_moments = atoms.magnetic_moments[sort_list]
 
     for _, elem in enumerate(elements):
         line.append(f"{elem}\t{atom_data[symbol_map[elem]][3]}\t{pps[elem]}")
@@ -285,12 +295,10 @@ def get_abacus_structure(atoms, pps, orbitals=None, abfs=None):
     for i, elem in enumerate(elements):
         line.append(f"{elem}\n{0}\n{numbers[i]}")
         for j in range(index, index + numbers[i]):
-            if atoms.magnetic_moments is not None:
-                line_part = (
-                    " ".join(_list_elem2str(atoms.scaled_positions[j])) + " 1 1 1"
-                )
+            if magnetic_moments is not None:
+                line_part = " ".join(_list_elem2str(scaled_positions[j])) + " 1 1 1"
                 # Add the magnetic moments part
-                mag_mom = atoms.magnetic_moments[j]
+                mag_mom = magnetic_moments[j]
                 if isinstance(mag_mom, (list, np.ndarray)):
                     if (
                         len(mag_mom) == 3
@@ -302,7 +310,7 @@ def get_abacus_structure(atoms, pps, orbitals=None, abfs=None):
                 line.append(line_part)
             else:
                 line.append(
-                    " ".join(_list_elem2str(atoms.scaled_positions[j])) + " " + "1 1 1"
+                    " ".join(_list_elem2str(scaled_positions[j])) + " " + "1 1 1"
                 )
         line.append(empty_line)
         index += numbers[i]
